@@ -28,7 +28,8 @@ TEXT = ("TLC explores every interleaving of senders, callers, stop requests, the
         "(liveness), name uniqueness/visibility and exactly-one group delivery. Histories recorded from the real crate under "
         "seeded random multi-threaded programs are checked against the same predicates directly and validated by TLC "
         "against the model's actions (call/return linearization).")
-NOTE = ("Model bounds: capacity 1..2, 2 senders x 2 messages + stop (casts; calls), 3 messages with failures, 2 racing named "
+NOTE = ("Directed programs every batch: 18 group layouts (member full / closed-unpruned / live x join order x cursor) and 6 "
+        "failed-start-then-respawn programs with the failed incarnation's Drop gated. Model bounds: capacity 1..2, 2 senders x 2 messages + stop (casts; calls), 3 messages with failures, 2 racing named "
         "spawns + lookups, supervisor respawn, 2 group members x 3 group sends. Recorded programs: <= 8 actors, <= 4 client "
         "threads, 1..3 workers. No hook in /repo: actors and clients log themselves, ordering by sequence number at the "
         "logging point. A hang is declared only after a 20 s watchdog counted from the observed actor exit. Not covered: "
@@ -357,6 +358,51 @@ def oracle(ev):
         if not holders:
             v("name-not-free", "spawn of actor %s was refused (name %s taken) although every other actor of that name had "
               "exited or failed to start" % (a, sa["name"]))
+    # ---- process group: a message is only handed back when nobody could take it -------------------------------
+    tok_join = {}    # tok -> [a, call_i, ret_i]
+    tok_leave = {}   # tok -> first gleave.call i
+    pj = {}
+    for e in ev:
+        if e["e"] == "gjoin.call":
+            tok_join[e["tok"]] = [e["a"], e["i"], None]
+            pj[e["p"]] = e["tok"]
+        elif e["e"] == "gjoin.ret":
+            t = pj.pop(e["p"], None)
+            if t is not None:
+                tok_join[t][2] = e["i"]
+        elif e["e"] == "gleave.call":
+            tok_leave.setdefault(e["tok"], e["i"])
+    for gkey, g in sends.items():
+        if not g["group"] or g["res"] not in ("full", "closed") or g["ret_i"] is None:
+            continue
+        c, r = g["call_i"], g["ret_i"]
+        for tok, (a, jc, jr) in tok_join.items():
+            if jr is None or jr > c or tok_leave.get(tok, r + 1) < r:
+                continue                       # not a member for the whole duration of the call
+            ps = [(ok, i) for (h, ok, i) in hooks.get(a, []) if h == "post_start"]
+            if not ps or not ps[0][0] or ps[0][1] > c:
+                continue                       # not (yet) running
+            if trouble.get(a) is not None and trouble[a] < r:
+                continue                       # stopped / failing / finishing: may be closed
+            inq = 0                            # upper bound of what can sit in the mailbox of a during [c, r]
+            for mkey, m in sends.items():
+                if mkey == gkey or m["call_i"] > r or m["res"] in ("full", "closed"):
+                    continue
+                bs = begins.get(mkey, [])
+                if m["group"]:
+                    if bs and bs[0][0] != a:
+                        continue
+                elif m["a"] != a:
+                    continue
+                if bs and bs[0][0] == a and bs[0][1] < c:
+                    continue                   # taken out of the mailbox before the call began
+                inq += 1
+            if inq < spawns[a]["cap"]:
+                v("group-handed-back-despite-free-member",
+                  "group send %s was handed back (%s) although member actor %s (token %s) was live, not stopping and had "
+                  "mailbox room (at most %d of %d queued) for the whole duration of the call" %
+                  (gkey, g["res"], a, tok, inq, spawns[a]["cap"]))
+                break
     # ---- supervision events ---------------------------------------------------------------------------------
     for a, evs in sup_events.items():
         kinds = [k for (k, i) in evs]
@@ -454,6 +500,9 @@ def model_check(run, tier):
                 cover[a] = (od + d, ot + t)
         rs = strict.result()
         sany.result()
+        rc = None
+        if tier != "quick":
+            rc = ex.submit(lambda: vlib.tlc("Actor", "MC_Actor_registry_ctl.cfg", workers=1, timeout=600, coverage=False)).result()
     # the repaired close (DrainOnClose) is only exercised by MC_Actor_call_fixed.cfg, which runs in the thorough tier
     skip = TRACE_ONLY | ({"CloseRxDrains"} if tier == "quick" else set())
     zero = sorted(a for a, (d, t) in cover.items() if t == 0 and a not in skip)
@@ -465,6 +514,13 @@ def model_check(run, tier):
     if "CallNeverHangs" not in ((rs.violated or "") + " " + (rs.error or "")):
         raise vlib.ToolError("strict control: expected CallNeverHangs to be violated by CloseRxKeepsQueue, got %s %s" %
                              (rs.violated, rs.error))
+    # second control: reporting a start failure before releasing the name must violate FailedStartFreesName
+    if rc is not None:
+        if rc.violated != "FailedStartFreesName" or rc.error:
+            raise vlib.ToolError("registry control: expected FailedStartFreesName to be violated with ReportBeforeRelease, "
+                                 "got %s %s" % (rc.violated, rc.error))
+        run.note("registry_control", "FailedStartFreesName violated by the variant that reports a failed start before "
+                                     "releasing the name (MC_Actor_registry_ctl.cfg)")
     run.note("strict_control", "CallNeverHangs violated by the model of the code as it is (CloseRxKeepsQueue); "
                                "holds with DrainOnClose (MC_Actor_call_fixed.cfg, thorough tier)")
     run.note("model_actions_covered", len(cover))
